@@ -143,11 +143,17 @@ Section V2Proofs.
       destruct (Nat.leb _ _); [|reflexivity]. destruct (bytes_eqb _ _); [reflexivity|].
       destruct (Nat.eqb _ _); reflexivity.
     - unfold Transport.v2_iter, aiter, v2_need, v2_G. cbv zeta.
-      destruct (Nat.eqb _ LENGTH_LEN).
-      { destruct (_ <? _)%Z; reflexivity. }
-      destruct (_ && _); [|reflexivity].
-      destruct (pdec _ _ _ _) as [[hdr contents]|]; [|reflexivity].
-      destruct (N.eqb _ _); [reflexivity|]. destruct app; reflexivity.
+      assert (Hmin : forall a : Z,
+                 firstn (Z.to_nat (Z.min (a - Z.of_nat (length buf)) (Z.of_nat (length w)))) w = firstn (Z.to_nat a - length buf) w /\
+                 skipn (Z.to_nat (Z.min (a - Z.of_nat (length buf)) (Z.of_nat (length w)))) w = skipn (Z.to_nat a - length buf) w).
+      { intros a. replace (Z.to_nat (Z.min (a - Z.of_nat (length buf)) (Z.of_nat (length w))))
+          with (Nat.min (Z.to_nat a - length buf) (length w)) by lia.
+        split; [apply firstn_min_len|apply skipn_min_len]. }
+      destruct (Nat.ltb (length buf) LENGTH_LEN); [|destruct (Hmin (wrapu32 (TR_EXPANSION + len))) as [Hm1 Hm2]; rewrite Hm1, Hm2];
+      (destruct (Nat.eqb _ LENGTH_LEN); [destruct (_ <? _)%Z; reflexivity|]);
+      (destruct (_ && _); [|reflexivity]);
+      (destruct (pdec _ _ _ _) as [[hdr contents]|]; [|reflexivity]);
+      (destruct (N.eqb _ _); [reflexivity|]); destruct app; reflexivity.
     - cbn [v2_wf] in Hwf. unfold Transport.v2_iter. rewrite (v1_iter_aiter magic H4 magic_len H4_len v w Hwf Hs).
       unfold aiter. cbn [v2_need v2_G].
       destruct (v1_G magic H4 v _) as [[v' o]|]; reflexivity.
